@@ -75,33 +75,25 @@ structure Param where
   hasDefault : Bool
   stored : Option Val       -- what `Class()` stores under this name; `none` = not stored (or `*args`)
 
-def payloadVal (kind payload : String) : Option Val :=
-  match kind with
-  | "none" => some (.atom .none)
-  | "bool" => some (.atom (.bool (payload == "true")))
-  | "int" => payload.toInt?.map (fun z => .atom (.int z))
-  | "float" =>
-    if payload == "nan" then some (.atom (.num .nan))
-    else if payload == "inf" then some (.atom (.num .pinf))
-    else if payload == "-inf" then some (.atom (.num .ninf))
-    else match payload.splitOn "/" with
-      | [n] => n.toInt?.map (fun (z : Int) => Rose.atom (.num (.fin (z : ℚ))))
-      | [n, d] => match n.toInt?, d.toNat? with
-        | some z, some m => some (.atom (.num (.fin (mkRat z m))))
-        | _, _ => none
-      | _ => none
-  | "str" => some (.atom (.str payload))
-  | "enum" => some (.atom (.enum payload))
-  | "list" => some (.node .list [])
-  | "dict" => some (.node (.dict []) [])
-  | "array" => some (.node .array [])
-  | "obj" => some (.atom (.other payload))
-  | "other" => some (.atom (.other payload))
-  | _ => none
+def payloadVal : Gen.ExportTables.PyDefault → Option Val
+  | .none => some (.atom .none)
+  | .bool b => some (.atom (.bool b))
+  | .int z => some (.atom (.int z))
+  | .float n d => some (.atom (.num (.fin (mkRat n d))))
+  | .nan => some (.atom (.num .nan))
+  | .inf neg => some (.atom (.num (if neg then .ninf else .pinf)))
+  | .str s => some (.atom (.str s))
+  | .enum s => some (.atom (.enum s))
+  | .emptyList => some (.node .list [])
+  | .emptyDict => some (.node (.dict []) [])
+  | .emptyArray => some (.node .array [])
+  | .obj c => some (.atom (.other c))
+  | .absent => none
+  | .varargs => none
 
 def paramsOf (cls : String) : Option (List Param) :=
   (Gen.ExportTables.ctorParams.lookup cls).map
-    (fun ps => ps.map (fun (n, hd, k, pl) => ⟨n, hd, payloadVal k pl⟩))
+    (fun ps => ps.map (fun (n, hd, dv) => ⟨n, hd, payloadVal dv⟩))
 
 inductive DropKind where
   | eqDefault | close1 | unknown
@@ -143,14 +135,27 @@ def emit {β : Type} (fields : String → Option β) : Bool → List Param → O
     | some v => (emit fields positional ps).map (fun as => ((if positional then none else some p.name), v) :: as)
     | none => if p.hasDefault then emit fields false ps else none
 
+/-- labels of the empty containers that occur as constructor defaults -/
+def emptyKind : VKind → Bool
+  | .list => true
+  | .array => true
+  | .dict [] => true
+  | _ => false
+
+/-- equality with a constructor default: defaults are plain atoms or empty containers -/
+def eqDefaultVal : Val → Val → Bool
+  | .atom (.rule _), _ => false
+  | .atom a, .atom b => a == b
+  | .node k [], .node k' [] => emptyKind k && k == k'
+  | _, _ => false
+
 /-- the conditions under which the `__repr__` overrides drop a field: equal to the default (the overrides test
     `not description`, `enabled`, `resolution == default_resolution`, `type == Automatic`, `not variables`), or a
     height within the tolerance of 1 -/
 def dropHolds (env : Env) (dflt : Option Val) : DropKind → Val → Bool
-  | .eqDefault, v => match dflt, v with
-    | some (.atom a), .atom b => a == b
-    | some (.node k []), .node k' [] => k == k'
-    | _, _ => false
+  | .eqDefault, v => match dflt with
+    | some d => eqDefaultVal d v
+    | none => false
   | .close1, .atom (.num x) => isClose1 env.cfg.tol x
   | .close1, _ => false
   | .unknown, _ => false
